@@ -53,6 +53,16 @@ Theorem C02_no_or_many_centres_fail : forall sch m a, (a < natom m)%nat ->
 Proof. exact assign_centres_fails. Qed.
 Print Assumptions C02_no_or_many_centres_fail.
 
+(* "each atom with a named centre contributes one group formed from its centre name and the multiset of its neighbours'
+   peripheral names": before the remaps the count of a group name is the number of atoms contributing it *)
+Theorem C02_groups_before_remaps : forall sch m nm,
+  assign_groups sch m nm = apply_remaps (s_remaps sch) (raw_groups m nm).
+Proof. exact assign_groups_is. Qed.
+Theorem C02_group_counts : forall m nm k,
+  dict_get (raw_groups m nm) k == fold_right (fun i s => occ k (group_of m nm i) + s) 0 (seq 0 (natom m)).
+Proof. exact raw_groups_count. Qed.
+Print Assumptions C02_group_counts.
+
 Theorem C02_only_pattern_error : forall sch m e, assign_centres sch m = SRaise e -> e = PatternMatch.
 Proof. exact centres_only_pattern_error. Qed.
 Print Assumptions C02_only_pattern_error.
